@@ -29,7 +29,7 @@ def le3(v):
 
 
 class PyMachine:
-    def __init__(self, scen, obs_lcd=False):
+    def __init__(self, scen, obs_lcd=False, obs_full=False):
         os.environ.setdefault("FORCE_BINJA_MOCK", "1")
         from pce500.emulator import PCE500Emulator
         from sc62015.pysc62015.emulator import RegisterName
@@ -37,6 +37,7 @@ class PyMachine:
         emu = PCE500Emulator(save_lcd_on_exit=False, perfetto_trace=False)
         self.emu = emu
         self.obs_lcd = obs_lcd
+        self.obs_full = obs_full
         self.keyi_log = []
         self._hook_keyi(emu)
         self.load_scenario(scen)
@@ -63,6 +64,8 @@ class PyMachine:
         emu, RN = self.emu, self.RN
         pieces = [(a, bytes.fromhex(h)) for a, h in scen.get("code", [])]
         emu.load_rom(rom_image(pieces))
+        if scen.get("bare"):
+            return      # a fresh emulator with only the ROM inserted (C16: everything else must come from the snapshot)
         t = scen.get("timer", {})
         emu._timer_enabled = bool(t.get("enabled", False))
         emu._timer_mti_period = int(t.get("mti", 0))
@@ -100,6 +103,17 @@ class PyMachine:
             snap = emu.lcd.get_snapshot()
             o["lcd_meta"] = [[c.on, c.start_line, c.page, c.y_address] for c in snap.chips]
             o["lcd_crc"] = zlib.crc32(bytes(b for c in snap.chips for p in c.vram for b in p))
+        if self.obs_full:
+            import zlib
+            ext = emu.memory.external_memory
+            o["imem"] = bytes(ext[len(ext) - 256:]).hex()
+            o["ram_crc"] = zlib.crc32(bytes(rb(a) & 0xFF for a in range(0xB8000, 0xB8200))
+                                      + bytes(rb(a) & 0xFF for a in range(0xB8F00, 0xBA010)))
+            o["call_depth"] = int(emu.call_depth)
+            o["kol"] = rb(IMEM + 0xF0) & 0xFF
+            o["koh"] = rb(IMEM + 0xF1) & 0xFF
+            kb = emu.keyboard
+            o["pressed"] = sorted(str(k) for k in kb._matrix.get_pressed_keys())
         return o
 
     def run(self, script):
@@ -138,6 +152,8 @@ class PyMachine:
                 emu.memory.write_byte(IMEM + op[1], cur & op[2])
             elif k == "save":
                 emu.save_snapshot(op[1])
+            elif k == "load_into":
+                emu.load_snapshot(op[1])
             elif k == "load":
                 from pce500.emulator import PCE500Emulator
                 fresh = PCE500Emulator(save_lcd_on_exit=False, perfetto_trace=False)
@@ -161,14 +177,15 @@ def rust_script(script, key_codes):
     return ops
 
 
-def run_rust(scenarios_scripts, key_codes, obs_lcd=False, timeout=900):
+def run_rust(scenarios_scripts, key_codes, obs_lcd=False, timeout=900, obs_full=False):
     """[(scenario, script)] -> list of observation lists (one per step/obs op)."""
     from . import rust
     payload = []
     for i, (scen, script) in enumerate(scenarios_scripts):
         p = {"id": i, "code": scen.get("code", []), "rom_ro": True, "regs": scen.get("regs", {}),
              "imem": {str(k): v for k, v in scen.get("imem", {}).items()}, "timer": scen.get("timer", {}),
-             "obs_lcd": obs_lcd, "script": rust_script(script, key_codes)}
+             "obs_lcd": obs_lcd, "obs_full": obs_full, "bare": bool(scen.get("bare")),
+             "script": rust_script(script, key_codes)}
         payload.append(p)
     rr = rust.run("rt", payload, timeout=timeout)
     outs = []
